@@ -44,7 +44,7 @@ def cfg_flags(cfg, prefix="-"):
 
 
 def run_vh(ctx, programs, cfg=None, sequential=False, sanity=True, dump=False, timeout=600, jobs=None, trace=None, exe=None,
-           stderr_to=None):
+           stderr_to=None, revbases=False):
     """Analyse programs in one harness process (one configuration). Returns {id: result}."""
     if not programs:
         return {}
@@ -59,6 +59,8 @@ def run_vh(ctx, programs, cfg=None, sequential=False, sanity=True, dump=False, t
         cmd.append("-sanity=false")
     if dump:
         cmd.append("-dump")
+    if revbases:
+        cmd.append("-revbases")
     if jobs:
         cmd += ["-j", str(jobs)]
     # every program gets its own module path (m -> m<k>): state that the code under test keeps per package path
